@@ -114,7 +114,7 @@ def generate(seed, tier, batch):
             tg = r.choice(alive)
             if tg == src or src not in alive:
                 continue
-            e = {"mul": [{"meas": src}, round(r.uniform(-1, 1), 3)]}
+            e = {"mul": [{"meas": src}, round(r.uniform(-1, 1), 3) or 0.5]}  # never 0: q.par * 0 is simplified to the number 0 (no dependency)
             if r.random() < 0.3 and len(measured) > 1:
                 src2 = r.choice(measured)
                 if src2 in alive and src2 != tg:
